@@ -218,6 +218,12 @@ class Folder:
                 s = self.model.resolve(module.name, node.value.id)
                 if s is not None and s.kind == "module" and s.target in self.model.modules:
                     return self.module_value(s.target, node.attr)
+                if s is not None and s.kind == "module" and s.target == "re":
+                    import re as _re
+
+                    c = getattr(_re, node.attr, None)
+                    if isinstance(c, (int, _re.RegexFlag)) and not isinstance(c, bool):
+                        return c
             if isinstance(base, Instance):
                 return UNKNOWN
             return UNKNOWN
@@ -493,9 +499,23 @@ class Folder:
             if isinstance(callee, ClassRef) and not has_star:
                 return Instance(callee.ci, args, kwargs)
             return UNKNOWN
+        if isinstance(f, ast.Attribute) and isinstance(f.value, ast.Name) and f.attr in ("compile", "fullmatch", "match", "search") and f.value.id not in env:
+            s_ = self.model.resolve(module.name, f.value.id)
+            if s_ is not None and s_.kind == "module" and s_.target == "re" and not has_star and args and is_known(args) and is_known(list(kwargs.values())) and isinstance(args[0], (str, bytes)):
+                import re as _re
+
+                # a constant pattern applied by Python's own regex engine: the same constant folding as str.split on a literal
+                return getattr(_re, f.attr)(*args, **kwargs)
         if isinstance(f, ast.Attribute):
             recv = ev(f.value)
             meth = f.attr
+            import re as _re
+
+            if isinstance(recv, _re.Pattern) and meth in ("fullmatch", "match", "search", "findall", "split", "sub") and not has_star and is_known(args):
+                return getattr(recv, meth)(*args, **kwargs)
+            if isinstance(recv, _re.Match) and meth in ("group", "groups", "groupdict", "start", "end", "span") and not has_star and is_known(args):
+                r_ = getattr(recv, meth)(*args, **kwargs)
+                return list(r_) if False else r_
             if isinstance(recv, ClassRef) and not has_star:
                 if meth == "encode" and len(args) == 1 and not kwargs:
                     # own encode override -> not a plain pack
